@@ -36,9 +36,11 @@ MAX_INLINE_ROUNDS = 6
 
 PURE_EXTERNALS = {"strlen", "strcmp", "strncmp", "memcmp", "abs", "labs", "strchr", "strrchr", "isalnum", "isalpha", "isdigit",
                   "isspace", "tolower", "toupper", "__builtin_expect", "ntohl", "ntohs", "htonl", "htons", "__builtin_bswap32",
-                  "__builtin_bswap16", "__builtin_constant_p", "__bswap_32", "__bswap_16", "vbi_unham8", "vbi_unham16p",
-                  "vbi_unham24p", "vbi_unpar8", "vbi_rev8", "vbi_rev16", "vbi_rev16p", "vbi_is_bcd", "vbi_bcd2dec", "vbi_dec2bcd",
+                  "__builtin_bswap16", "__builtin_constant_p", "__bswap_32", "__bswap_16",
+                  "vbi_rev8", "vbi_rev16", "vbi_rev16p", "vbi_is_bcd", "vbi_bcd2dec", "vbi_dec2bcd",
                   "vbi_add_bcd", "vbi_neg_bcd"}
+# not the Hamming / parity decoders: RF-NEG follows their results by the local that holds them; a temporary tested `< 0`
+# must stay the thing that is stored afterwards
 
 
 _INV = []
